@@ -102,6 +102,11 @@ type c44Cl struct {
 	regSlot  string   // slot content when it registered
 	regSeq   int64
 	writeErr bool
+	// swallowed: state (not the log) showed this client blocked in its select with an
+	// empty resultsCh while the log counts a wake-up sent and never consumed by a wl-wake:
+	// something took the wake-up without re-reading the slot.
+	swallowed     bool
+	swallowedEver int
 }
 
 type c44Model struct {
@@ -351,6 +356,12 @@ func (m *c44Model) feed(e d2cli.VerifEvent) {
 		c := m.cl(arg(0))
 		c.wakes++
 		c.lastEv = "wake"
+		if c.swallowed {
+			// counts stay shifted by the swallowed wake-up(s): re-base them
+			c.wakes = c.sigSent
+			c.swallowed = false
+			c.swallowedEver++
+		}
 	case "wl-ctx-done":
 		m.cl(arg(0)).lastEv = "ctx-done"
 	case "admit":
@@ -442,11 +453,26 @@ func (m *c44Model) clientsIdle() (bool, string) {
 		if c.lastEv != "park" {
 			return false, c.id + " not parked (" + c.lastEv + ")"
 		}
-		if c.sigSent != c.wakes {
+		if c.sigSent != c.wakes && !c.swallowed {
 			return false, fmt.Sprintf("%s has %d unconsumed wake-up(s)", c.id, c.sigSent-c.wakes)
 		}
 	}
 	return true, ""
+}
+
+// suspects are registered clients whose last event is wl-park although the log still
+// counts a wake-up as sent and not consumed. Normally that is the instant between the
+// channel receive and its wl-wake event; if the real state says otherwise (channel empty,
+// goroutine blocked in the select) the wake-up was consumed without a slot read.
+func (m *c44Model) suspects() []*c44Cl {
+	var out []*c44Cl
+	for id := range m.reg {
+		c := m.cls[id]
+		if c.lastEv == "park" && c.sigSent != c.wakes && !c.swallowed {
+			out = append(out, c)
+		}
+	}
+	return out
 }
 
 // ---------------------------------------------------------------------------------
@@ -788,7 +814,7 @@ func (h *c44Env) waitFor(what string, cond func() bool) bool {
 			}
 		}
 		if time.Since(lastProgress) > c44Watchdog || time.Since(start) > c44WatchdogTotal {
-			h.inconclusive(fmt.Sprintf("watchdog: %s not reached, no event for %v (events %d, compile loop %s, req %d/%d/%d wakes %d)", what, time.Since(lastProgress).Round(time.Second), h.m.n, h.m.clLast, h.m.reqEnter, h.m.reqSent, h.m.reqCoal, h.m.clWake)+"\nlast events:\n"+h.tailEvents(15)+"d2 log tail:\n"+h.tailLog(6))
+			h.inconclusive(fmt.Sprintf("watchdog: %s not reached, no event for %v (events %d, compile loop %s, req %d/%d/%d wakes %d)", what, time.Since(lastProgress).Round(time.Second), h.m.n, h.m.clLast, h.m.reqEnter, h.m.reqSent, h.m.reqCoal, h.m.clWake) + "\nlast events:\n" + h.tailEvents(15) + "d2 log tail:\n" + h.tailLog(6))
 			return false
 		}
 		time.Sleep(2 * time.Millisecond)
@@ -848,6 +874,14 @@ func (h *c44Env) quiescent() (bool, string) {
 	if !m.compileIdle() {
 		return false, "compile loop busy"
 	}
+	if sus := m.suspects(); len(sus) > 0 {
+		if !h.stateConfirmsParked(sus) {
+			return false, sus[0].id + " has an unconsumed wake-up"
+		}
+		for _, c := range sus {
+			c.swallowed = true
+		}
+	}
 	if ok, why := m.clientsIdle(); !ok {
 		return false, why
 	}
@@ -864,6 +898,54 @@ func (h *c44Env) quiescent() (bool, string) {
 		}
 	}
 	return true, ""
+}
+
+// stateConfirmsParked decides on the real state, not on the log, that the suspect clients
+// cannot make another step: compileCh is empty, their resultsCh is empty, every registered
+// write loop is blocked in writeLoop's own select (goroutine profile), and no event was
+// logged while looking. In that state no further event can happen without a new request.
+func (h *c44Env) stateConfirmsParked(sus []*c44Cl) bool {
+	if h.proc != nil || h.vw == nil {
+		return false
+	}
+	n0 := d2cli.VerifEventCount()
+	if n0 != h.m.n {
+		return false // the model is behind the log
+	}
+	st := h.vw.State()
+	if st.CompilePending != 0 {
+		return false
+	}
+	for _, c := range sus {
+		if p, ok := st.PendingByID[c.id]; !ok || p != 0 {
+			return false
+		}
+	}
+	inSelect := 0
+	for _, g := range c44Goroutines() {
+		if !strings.HasPrefix(g.state, "select") {
+			continue
+		}
+		for _, f := range g.frames {
+			if strings.HasPrefix(f, "runtime.") {
+				continue
+			}
+			if strings.HasSuffix(f, "d2cli.(*wsclient).writeLoop") {
+				inSelect++
+			}
+			break
+		}
+	}
+	if inSelect < len(h.m.reg) {
+		return false
+	}
+	st2 := h.vw.State()
+	for _, c := range sus {
+		if p, ok := st2.PendingByID[c.id]; !ok || p != 0 {
+			return false
+		}
+	}
+	return d2cli.VerifEventCount() == n0
 }
 
 // shutdown closes the watcher and waits for run() to return; bounded because a mutant can
